@@ -611,11 +611,22 @@ func Run(c *fw.Ctx) {
 			for j := r.Intn(6); j > 0; j-- { // a chain of single-page calls leaves spare slice capacity
 				sc.Base = append(sc.Base, builderCall{Kind: "Pages", Args: []int{1 + r.Intn(np)}})
 			}
+			if r.Intn(2) == 0 { // one call with repeated and unsorted pages
+				var args []int
+				for j := 2 + r.Intn(4); j > 0; j-- {
+					args = append(args, 1+r.Intn(np))
+				}
+				args = append(args, args[0])
+				sc.Base = append(sc.Base, builderCall{Kind: "Pages", Args: args})
+			}
 			for j := 2 + r.Intn(3); j > 0; j-- {
-				if r.Intn(4) == 0 {
+				switch r.Intn(5) {
+				case 0:
 					a := 1 + r.Intn(np)
 					sc.Derive = append(sc.Derive, []builderCall{{Kind: "PageRange", Args: []int{a, a}}})
-				} else {
+				case 1, 2: // derived through a builder that does not touch the page list
+					sc.Derive = append(sc.Derive, []builderCall{{Kind: []string{"ByColumn", "JoinParagraphs", "ExcludeHeaders", "ExcludeFooters", "ExcludeHF"}[r.Intn(5)]}})
+				default:
 					sc.Derive = append(sc.Derive, []builderCall{{Kind: "Pages", Args: []int{1 + r.Intn(np)}}})
 				}
 			}
